@@ -30,7 +30,9 @@ OWN_CORPUS = [
     "$[?@[1:2]]", "$[?(@.a)]", "$[?((@.a))]", "$[?!(@.a == 1)]", "$[?(@.a == 1) && (@.b == 2)]",
     "$[?@.a==1&&@.b==2||!@.c]", "$[?match(@.a,'a')&&search(@.b,'b')]", "$[? count( @.* ) == 1 ]",
     "$[?1==1]", "$[?'a'=='a']", "$[?null==null]", "$[?-1<0]", "$[?0.5<1]", "$.a[?@.b][?@.c]",
-    "$..[?@.a]", "$[?@.a\n==\n1]", "$[?@.a==\t1]", "$\n.a", "$\r\n[\n0\n]",
+    "$..[?@.a]", "$[?count(@[?@.c, ?@.d]) > 0]", "$[?count(@[?@.c,1]) == 1]", "$[?value(@[?match(@.a,'b'), 0]) == 1, ?@.b]",
+    "$[?count(@[?count(@[?@.a,1]) > 1, 2]) > 0]", "$[?@[?@.c, ?@.d]]", "$[?length(@['a','b'][0]) == 1]".replace("['a','b'][0]", "['a'][0]"),
+    "$[?count(@['a','b']) == 2]", "$[?count(@[0,1:2,*]) > 2 && match(@.a, 'x')]", "$[?@.a\n==\n1]", "$[?@.a==\t1]", "$\n.a", "$\r\n[\n0\n]",
 ]
 
 
